@@ -16,6 +16,7 @@ package parser
 import (
 	"fmt"
 	"reflect"
+	"sort"
 	"strings"
 )
 
@@ -86,6 +87,18 @@ func (a *Auditor) Audit(oldFile, newFile string) error {
 		return err
 	}
 
+	a.auditFrugal(oldFrugal, newFrugal, map[string]bool{})
+
+	if a.logger.ErrorsLogged() {
+		return fmt.Errorf("FAILED: audit of %s against %s", newFile, oldFile)
+	}
+	return nil
+}
+
+// auditFrugal compares one parsed file and then, recursively, every file it
+// includes under the same name in both versions (the definitions of an
+// include are part of the audited API).
+func (a *Auditor) auditFrugal(oldFrugal, newFrugal *Frugal, seen map[string]bool) {
 	a.oldFrugal = oldFrugal
 	a.newFrugal = newFrugal
 
@@ -99,10 +112,19 @@ func (a *Auditor) Audit(oldFile, newFile string) error {
 	a.checkStructLike(oldFrugal.Unions, newFrugal.Unions)
 	a.checkServices(oldFrugal.Services, newFrugal.Services)
 
-	if a.logger.ErrorsLogged() {
-		return fmt.Errorf("FAILED: audit of %s against %s", newFile, oldFile)
+	names := make([]string, 0, len(oldFrugal.ParsedIncludes))
+	for name := range oldFrugal.ParsedIncludes {
+		names = append(names, name)
 	}
-	return nil
+	sort.Strings(names)
+	for _, name := range names {
+		newInclude, ok := newFrugal.ParsedIncludes[name]
+		if !ok || seen[name] {
+			continue
+		}
+		seen[name] = true
+		a.auditFrugal(oldFrugal.ParsedIncludes[name], newInclude, seen)
+	}
 }
 
 // checkScopes requirements:
